@@ -12,13 +12,15 @@ pub mod c09;
 pub mod c10;
 pub mod c11;
 pub mod c12;
+pub mod c13;
+pub mod c14;
 pub mod c15;
 pub mod c16;
 pub mod c17;
 pub mod c18;
 
 pub fn ids() -> Vec<&'static str> {
-    vec!["C01", "C02", "C03", "C04", "C07", "C08", "C09", "C10", "C11", "C12", "C15", "C16", "C17", "C18"]
+    vec!["C01", "C02", "C03", "C04", "C07", "C08", "C09", "C10", "C11", "C12", "C13", "C14", "C15", "C16", "C17", "C18"]
 }
 
 pub fn get(id: &str, ctx: &Ctx) -> Option<PropertyDef> {
@@ -33,6 +35,8 @@ pub fn get(id: &str, ctx: &Ctx) -> Option<PropertyDef> {
         "C10" => c10::def(ctx),
         "C11" => c11::def(ctx),
         "C12" => c12::def(ctx),
+        "C13" => c13::def(ctx),
+        "C14" => c14::def(ctx),
         "C15" => c15::def(ctx),
         "C16" => c16::def(ctx),
         "C17" => c17::def(ctx),
